@@ -5,6 +5,6 @@ import (
 	"os"
 )
 
-func readFile(p string) ([]byte, error)        { return os.ReadFile(p) }
+func readFile(p string) ([]byte, error)           { return os.ReadFile(p) }
 func jsonUnmarshal(b []byte, v interface{}) error { return json.Unmarshal(b, v) }
-func exit(c int)                                { os.Exit(c) }
+func exit(c int)                                  { os.Exit(c) }
